@@ -687,6 +687,44 @@ func extractC17Entry(c *Ctx, kf, bf *ast.File) error {
 		return true
 	})
 	idk = append(idk, "Job.GetID: return "+strings.Join(rets, " | "))
+	// no function on the way rewrites the id (or replaces the job) before it is used as a key
+	var rewrites []string
+	for _, fn := range []string{"AddNewJob", "saveJob", "JobIDExists", "GetJob", "ExecuteJob", "ScheduleNow"} {
+		fd := FindFunc(kf, "Keeper", fn)
+		if fd == nil {
+			return fmt.Errorf("%s not found", fn)
+		}
+		ast.Inspect(fd.Body, func(n ast.Node) bool {
+			as, ok := n.(*ast.AssignStmt)
+			if !ok {
+				return true
+			}
+			for _, l := range as.Lhs {
+				t := c.Src(l)
+				if t == "jobID" || t == "id" || t == "job.ID" || (t == "job" && fn != "ExecuteJob" && fn != "ScheduleNow" && fn != "GetJob") {
+					rewrites = append(rewrites, fn+": "+squash(c.Src(as)))
+				}
+			}
+			return true
+		})
+	}
+	c.P("Definition job_id_rewrites : list string := %s.", CoqStrList(rewrites))
+	// the owner assignment of the CreateJob handler is a top-level statement (not under a condition)
+	cf2, err := c.Parse("x/scheduler/keeper/msg_server_create_job.go")
+	if err != nil {
+		return err
+	}
+	cj2 := FindFunc(cf2, "msgServer", "CreateJob")
+	if cj2 == nil {
+		return fmt.Errorf("msgServer.CreateJob not found")
+	}
+	ownerTop := false
+	for _, st := range cj2.Body.List {
+		if as, ok := st.(*ast.AssignStmt); ok && len(as.Lhs) >= 1 && strings.HasSuffix(c.Src(as.Lhs[0]), ".Owner") {
+			ownerTop = true
+		}
+	}
+	c.P("Definition create_owner_unconditional : bool := %v.", ownerTop)
 	c.P("(* the id the duplicate check, the store key and the lookups use: the submitted string, untransformed *)")
 	c.P("Definition job_id_keys : list string := %s.", CoqStrList(idk))
 
@@ -705,6 +743,22 @@ func extractC17Entry(c *Ctx, kf, bf *ast.File) error {
 		return true
 	})
 	c.P("Definition msgserver_creator : string := %s.", CoqStr(creator))
+	// every statement of the handler that assigns the creator or the sender handed to the keeper
+	var idAssign []string
+	ast.Inspect(xj.Body, func(n ast.Node) bool {
+		as, ok := n.(*ast.AssignStmt)
+		if !ok {
+			return true
+		}
+		for _, l := range as.Lhs {
+			if t := c.Src(l); t == "creator" || t == "senderAddress" {
+				idAssign = append(idAssign, squash(c.Src(as)))
+				break
+			}
+		}
+		return true
+	})
+	c.P("Definition msgserver_identity_assignments : list string := %s.", CoqStrList(idAssign))
 	be := FindFunc(bf, "customMessenger", "executeJob")
 	readsSender := false
 	ast.Inspect(be.Body, func(n ast.Node) bool {
@@ -787,6 +841,18 @@ func extractC17Entry(c *Ctx, kf, bf *ast.File) error {
 	if err != nil {
 		return err
 	}
+	pj := FindFunc(ek, "Keeper", "PreJobExecution")
+	if pj == nil {
+		return fmt.Errorf("evm PreJobExecution not found")
+	}
+	var pjc []string
+	for _, n := range []string{"GetChainInfo", "justInTimeValsetUpdate", "PublishValsetToChain", "PublishSnapshotToAllChains", "SendValsetMsgForChain"} {
+		for _, ce := range Calls(pj.Body, n) {
+			pjc = append(pjc, squash(c.Src(ce)))
+		}
+	}
+	c.P("(* evm PreJobExecution: the job's chain only *)")
+	c.P("Definition prejob_calls : list string := %s.", CoqStrList(pjc))
 	sv := FindFunc(ek, "msgSender", "SendValsetMsgForChain")
 	if sv == nil {
 		return fmt.Errorf("SendValsetMsgForChain not found")
